@@ -61,7 +61,10 @@ fn copy_tree(from: &Path, to: &Path) -> std::io::Result<()> {
 }
 
 fn prop(c: &CheckCase, obs: &mut Obs) -> CaseResult {
-    let p = prepare(&c.world);
+    let Some(p) = prepare(&c.world) else {
+        obs.label("discarded-generator-invalid-world");
+        return Ok(());
+    };
     let io = |e: std::io::Error| Failure::new("io", e.to_string());
     let root = tempfile::tempdir().map_err(io)?;
     let wit = root.path().join("gen.wit");
